@@ -1,10 +1,10 @@
-(** C01 along whole histories of programs WITH binds (plain templates), from [init], with no
-    hypothesis on intermediate states.
+(** C01 along whole histories of programs WITH binds (nested binds included), from [init], with
+    no hypothesis on intermediate states.
 
     [histB_run s os = Some s']: every operation of [os] is in the alphabet
-    New{Var,Return,Map,Map2,MapN,Cutoff,Always}, [NewBind cases a] with PLAIN, parity-free case
-    templates ([tplain]: no nested bind, [TNil] only as a whole case; [parity_free]: the restriction
-    of SpecProofs' Theorem A), Observe, Unobserve, SetVar, UpdateVar, AddInput, RemoveInput,
+    New{Var,Return,Map,Map2,MapN,Cutoff,Always}, [NewBind cases a] whose case templates -- which may
+    contain nested binds [TBind] to any depth -- satisfy [tplain] ([TNil] only as a whole case) and
+    [parity_free] (the restriction of SpecProofs' Theorem A), Observe, Unobserve, SetVar, UpdateVar, AddInput, RemoveInput,
     [Stabilize []], StabilizeCancelled; is well-formed ([op_ok]) and clean ([EngineInv.op_clean]:
     top-level operands); and returns [Ok (_, None)].  It is a boolean computation.
 
@@ -47,3 +47,10 @@ Print Assumptions C01_history_binds_invariants.
     the observer is removed and a last pass runs -- is a history of the fragment. *)
 Example C01_history_binds_ex : exists s, histB_run (init 64) exH_ops = Some s.
 Proof. exact exH_runs. Qed.
+
+(** Non-vacuity with a NESTED bind: [exN_ops] -- the outer bind builds an inner bind over [Return x];
+    first generation (outer and inner functions run in the same pass), a pass in which only the
+    innermost right-hand side changes, an outer swap that discards the nested generation, a swap
+    back -- is a history of the fragment. *)
+Example C01_history_binds_nested_ex : exists s, histB_run (init 64) exN_ops = Some s.
+Proof. exact exN_runs. Qed.
